@@ -196,4 +196,137 @@ example : Gen.Src.Init.KMP_partial [97, 98, 97, 98, 97, 99] = .ok [0, 0, 1, 2, 3
 example : Gen.Src.Init.KMP_search [7] [] = .error .index := by rfl
 example : Gen.Src.Init.KMP_search [] [] = .ok [] := by rfl
 
+/-- `string_matching_boyer_moore_horspool` of SamDec008.py as written today = the model `bmh`, for EVERY text and
+    pattern: `[]` when the pattern is longer than the text, the offsets for a non-empty pattern, and outside the domain
+    (empty pattern) IndexError on the empty text / `Err.fuel` (the Python loop never ends) on a non-empty one.
+    Includes termination of both `while` loops within their fuels wherever the model terminates. -/
+theorem src_bmh_samdec (text pat : Bytes) :
+    Gen.Src.SamDec008.string_matching_boyer_moore_horspool text pat = Model.Search.bmh text pat := by
+  unfold Gen.Src.SamDec008.string_matching_boyer_moore_horspool Model.Search.bmh
+  simp only [Py.len]
+  by_cases hmn : pat.length > text.length
+  · have h' : (pat.length : Int) > (text.length : Int) := by omega
+    rw [if_pos h', if_pos hmn]
+  · have h' : ¬ (pat.length : Int) > (text.length : Int) := by omega
+    rw [if_neg h', if_neg hmn]
+    have h256 : List.foldl (fun (skip : List Int) (k : Int) => skip ++ [(pat.length : Int)]) [] (Py.range 256) =
+        (List.replicate 256 pat.length).map Int.ofNat := by
+      rw [foldl_append_const, show (Py.range 256).length = 256 from range_length 256, List.nil_append,
+        List.map_replicate]; rfl
+    have hrange : Py.range ((pat.length : Int) - 1) = (List.range (pat.length - 1)).map Int.ofNat := by
+      unfold Py.range
+      have : ((pat.length : Int) - 1).toNat = pat.length - 1 := by omega
+      rw [this]
+    have hfuel1 : ((text.length : Int) + 1).toNat = text.length + 1 := by omega
+    have hfuel2 : ((pat.length : Int) - 1 + 2).toNat = pat.length + 1 := by omega
+    rw [h256, hrange, hfuel1, hfuel2,
+      skipLoop_tie pat _ ?hG (List.range (pat.length - 1)) (List.replicate 256 pat.length) List.length_replicate
+        (fun k hk => List.mem_range.mp hk), ← bmhSkip_eq, ok_bind, bind_ok_fst]
+    case hG =>
+      intro sk k hs hk
+      obtain ⟨c, hc⟩ : ∃ c, pat[k]? = some c := ⟨pat[k]'(by omega), List.getElem?_eq_getElem _⟩
+      have e : (pat.length : Int) - (k : Int) - 1 = ((pat.length - k - 1 : Nat) : Int) := by omega
+      simp only [getByte_nat, hc, liftB_some, ok_bind, e]
+      rw [setItem_nat _ _ _ (by rw [hs]; exact c.toNat_lt), ok_bind]
+      unfold skipStep; rw [hc]
+    refine outer_tie text pat (Model.Search.bmhSkip pat) _ _ (fun offs k => rfl) (fun offs k => ?_)
+      (text.length + 1) ((pat.length : Int) - 1) []
+    simp only []
+    rw [inner_tie text pat _ _ (fun j i => rfl) (fun j i => rfl) pat.length k]
+    unfold outerStep
+    cases Model.Search.bmhInner text pat pat.length k with
+    | error e => rfl
+    | ok r =>
+      obtain ⟨j1, i⟩ := r
+      simp only [Except.map, ok_bind, getByte_pyIdx]
+      cases Model.Search.pyIdx text k with
+      | none => rfl
+      | some c =>
+        simp only [liftB_some, ok_bind, getItem_nat]
+        cases (Model.Search.bmhSkip pat)[c.toNat]? with
+        | none => rfl
+        | some s =>
+          simp only [liftN_some, ok_bind, beq_iff_eq]
+          by_cases hj : j1 = 0
+          · subst hj; rfl
+          · have : ¬ ((j1 : Int) - 1 = -1) := by omega
+            rw [if_neg this, if_neg hj]
+
+/-- `string_matching_boyer_moore_horspool` of MPEG/H264.py (the second copy; its `if PY3:` tests are
+    resolved to the Python-3 branch by the translator, see the note in the generated file) as written today = the model `bmh`, for EVERY text and
+    pattern: `[]` when the pattern is longer than the text, the offsets for a non-empty pattern, and outside the domain
+    (empty pattern) IndexError on the empty text / `Err.fuel` (the Python loop never ends) on a non-empty one.
+    Includes termination of both `while` loops within their fuels wherever the model terminates. -/
+theorem src_bmh_h264 (text pat : Bytes) :
+    Gen.Src.H264.string_matching_boyer_moore_horspool text pat = Model.Search.bmh text pat := by
+  unfold Gen.Src.H264.string_matching_boyer_moore_horspool Model.Search.bmh
+  simp only [Py.len]
+  by_cases hmn : pat.length > text.length
+  · have h' : (pat.length : Int) > (text.length : Int) := by omega
+    rw [if_pos h', if_pos hmn]
+  · have h' : ¬ (pat.length : Int) > (text.length : Int) := by omega
+    rw [if_neg h', if_neg hmn]
+    have h256 : List.foldl (fun (skip : List Int) (k : Int) => skip ++ [(pat.length : Int)]) [] (Py.range 256) =
+        (List.replicate 256 pat.length).map Int.ofNat := by
+      rw [foldl_append_const, show (Py.range 256).length = 256 from range_length 256, List.nil_append,
+        List.map_replicate]; rfl
+    have hrange : Py.range ((pat.length : Int) - 1) = (List.range (pat.length - 1)).map Int.ofNat := by
+      unfold Py.range
+      have : ((pat.length : Int) - 1).toNat = pat.length - 1 := by omega
+      rw [this]
+    have hfuel1 : ((text.length : Int) + 1).toNat = text.length + 1 := by omega
+    have hfuel2 : ((pat.length : Int) - 1 + 2).toNat = pat.length + 1 := by omega
+    rw [h256, hrange, hfuel1, hfuel2,
+      skipLoop_tie pat _ ?hG (List.range (pat.length - 1)) (List.replicate 256 pat.length) List.length_replicate
+        (fun k hk => List.mem_range.mp hk), ← bmhSkip_eq, ok_bind, bind_ok_fst]
+    case hG =>
+      intro sk k hs hk
+      obtain ⟨c, hc⟩ : ∃ c, pat[k]? = some c := ⟨pat[k]'(by omega), List.getElem?_eq_getElem _⟩
+      have e : (pat.length : Int) - (k : Int) - 1 = ((pat.length - k - 1 : Nat) : Int) := by omega
+      simp only [getByte_nat, hc, liftB_some, ok_bind, e]
+      rw [setItem_nat _ _ _ (by rw [hs]; exact c.toNat_lt), ok_bind]
+      unfold skipStep; rw [hc]
+    refine outer_tie text pat (Model.Search.bmhSkip pat) _ _ (fun offs k => rfl) (fun offs k => ?_)
+      (text.length + 1) ((pat.length : Int) - 1) []
+    simp only []
+    rw [inner_tie text pat _ _ (fun j i => rfl) (fun j i => rfl) pat.length k]
+    unfold outerStep
+    cases Model.Search.bmhInner text pat pat.length k with
+    | error e => rfl
+    | ok r =>
+      obtain ⟨j1, i⟩ := r
+      simp only [Except.map, ok_bind, getByte_pyIdx]
+      cases Model.Search.pyIdx text k with
+      | none => rfl
+      | some c =>
+        simp only [liftB_some, ok_bind, getItem_nat]
+        cases (Model.Search.bmhSkip pat)[c.toNat]? with
+        | none => rfl
+        | some s =>
+          simp only [liftN_some, ok_bind, beq_iff_eq]
+          by_cases hj : j1 = 0
+          · subst hj; rfl
+          · have : ¬ ((j1 : Int) - 1 = -1) := by omega
+            rw [if_neg this, if_neg hj]
+
+/-- the completeness theorem of the model transfers to the SOURCE: both copies of Horspool return exactly the ascending
+    list of all (possibly overlapping) occurrences, for every text and every non-empty pattern -/
+theorem src_bmh_samdec_all_occurrences (text pat : Bytes) (hp : pat ≠ []) :
+    Gen.Src.SamDec008.string_matching_boyer_moore_horspool text pat = .ok ((Spec.occ text pat).map Int.ofNat) := by
+  rw [src_bmh_samdec]; exact Lemmas.Search.bmh_eq_occ text pat hp
+
+theorem src_bmh_h264_all_occurrences (text pat : Bytes) (hp : pat ≠ []) :
+    Gen.Src.H264.string_matching_boyer_moore_horspool text pat = .ok ((Spec.occ text pat).map Int.ofNat) := by
+  rw [src_bmh_h264]; exact Lemmas.Search.bmh_eq_occ text pat hp
+
+example : ([97, 98, 97] : Bytes) ≠ [] := by decide
+example : Gen.Src.SamDec008.string_matching_boyer_moore_horspool [97, 98, 97, 98, 98, 97, 98, 97, 98, 97] [97, 98, 97]
+    = .ok [0, 5, 7] := by rw [src_bmh_samdec]; rfl
+example : Gen.Src.H264.string_matching_boyer_moore_horspool [0, 0, 0, 1, 9, 0, 0, 0, 1] [0, 0, 0, 1] = .ok [0, 5] := by
+  rw [src_bmh_h264]; rfl
+/-- outside the domain (empty pattern): IndexError on the empty text; on a non-empty text the Python loop never ends
+    (`skip[...] = 0`), which the translation reports as `Err.fuel` -/
+example : Gen.Src.SamDec008.string_matching_boyer_moore_horspool [] [] = .error .index := by rw [src_bmh_samdec]; rfl
+example : Gen.Src.H264.string_matching_boyer_moore_horspool [7] [] = .error .fuel := by rw [src_bmh_h264]; rfl
+
 end Acra.Props.C17
